@@ -1138,3 +1138,8 @@ M("C10-getter-description-strips-initializer", "C10", "src/interrogate/interroga
 M("C10-const-member-ignored", "C10", "src/cppparser/cppStructType.cxx",
   "      if (member_ctor == nullptr ||\n          (member_ctor->_storage_class & CPPInstance::SC_defaulted) != 0) {\n        return false;\n      }", "      if (member_ctor == nullptr ||\n          (member_ctor->_storage_class & CPPInstance::SC_defaulted) != 0) {\n        continue;\n      }",
   expect="R10.1|is_default_constructible|M:const-without-initializer")
+
+MUTANTS.append({"id": "C15-declared-type-not-stacked", "prop": "C15", "benign": False,
+  "expect": "R15.13|current_type|pushed-before-replaced",
+  "edits": [("src/cppparser/cppBison.yxx", "  // These declarations can nest: an initializer may contain a class\n  // definition with members of its own (e.g. within sizeof).\n  last_types.push_back(current_type);\n", ""),
+            ("src/cppparser/cppBison.yxx", "        multiple_instance_identifiers\n{\n  pop_storage_class();\n  current_type = last_types.back();\n  last_types.pop_back();\n}", "        multiple_instance_identifiers\n{\n  pop_storage_class();\n}")]})
